@@ -181,13 +181,10 @@ def c16_history(s: str, sel: int, order: int) -> str:
         except Exception:
             pass
         after = run(a)
-        again = run(a, 1), run(a, 1)
     except Exception as ex:
         return f"{exc(ex)} escaped for {a!r}"
     if before != after:
         return f"outcome of {a!r} changed after processing {b!r}: {before} -> {after}"
-    if again[0] != again[1]:
-        return f"parse_to_sexpression({a!r}) is not repeatable"
     return ""
 
 
